@@ -1517,6 +1517,18 @@ func MultipartBodyDecoder(body io.Reader, header http.Header, schema *openapi3.S
 			}
 			return nil, fmt.Errorf("part %s: %w", name, err)
 		}
+		if raw, ok := value.(string); ok && part.Header.Get(headerCT) == "" && valueSchema != nil && valueSchema.Value != nil {
+			// a part without a Content-Type is plain text (the default encoding of primitive properties):
+			// an integer, number or boolean property is read from that text
+			if t := valueSchema.Value.Type; t.Is("integer") || t.Is("number") || t.Is("boolean") {
+				if value, err = parsePrimitive(raw, valueSchema); err != nil {
+					if v, ok := err.(*ParseError); ok {
+						return nil, &ParseError{path: []any{name}, Cause: v}
+					}
+					return nil, fmt.Errorf("part %s: %w", name, err)
+				}
+			}
+		}
 		values[name] = append(values[name], value)
 	}
 
